@@ -182,8 +182,8 @@ def cases(ctx):
         step = 128
         for lo in range(0, n, step):
             if ctx.mine(i):
-                yield "field", {"name": name, "lo": lo, "hi": min(n, lo + step), "fill": 2 if quick else 8,
-                                "flip_every": 16 if quick else 4, "all_flips": not quick and lo == 0}
+                yield "field", {"name": name, "lo": lo, "hi": min(n, lo + step), "fill": 4 if quick else 8,
+                                "flip_every": 8 if quick else 4, "all_flips": not quick and lo == 0}
             i += 1
     for lo in range(0, 512, 128):
         if ctx.mine(i):
